@@ -210,7 +210,8 @@ def drive_pv(recipe):
 # ------------------------------------------------------------------ generators (seeded)
 WORDS = ["O1", "H2A", "C", "Uani", "calc", ".", "?", "x,y,z", "-x+1/2,y,-z", "P21/c", "R-3c:H", "d", "abc",
          "o'c", "a;b", "5'-end", "1a", "e5", "1.2.3", "12(3", "x(1)", "-", "+", "..", "1/2", "N#1", "a_b", "A\"b",
-         "(3)", "1e", "dAtA", "Loop", "stop", "--1", "1.5()", "a(b)c", "x[1]", "{y}", "%", "~1", "v=1"]
+         "(3)", "1e", "dAtA", "Loop", "stop", "--1", "1.5()", "a(b)c", "x[1]", "{y}", "%", "~1", "v=1", "nan", "inf",
+         "1_000", "0x10", "1e5x", "1.e", "e", "E1", "+-1", "1-2", "3/4", "1:2", "T", "none", "None", "True"]
 SPACED = ["a b", "P 21/c", "R 3 c :H", "-x, y+1/2, -z", "testing purposes", "x , y", "1 2", "12 apples",
           "a 1.5(3)", "- x", "C 2/m (b)", "a # b", "a _b", "a ; b", "one two three", "q data_x", "z loop_"]
 MULTIBLANK = ["a  b", "P  21/c", "x   y z", "1  2"]
@@ -373,7 +374,8 @@ def pv_recipes(rng, n):
              "100", "1.00", "0.000", "-3.140(15)", "12345678901234567890", "9007199254740993", "9007199254740992",
              "1,5", "1.5e400", "'a b'", '"x y"', "'12'", "'1.5(3)'", "'it\"s'", '"o\'c d"', "''", "'a", "a'", "abc",
              "x,y,z", "1.2.3", "12(3", "(3)", "1.5()", "1.5(3)x", "e5", "1e", "1e+", "-", ".", "?", "' a'", "'a '",
-             "'a'b'", "\"\"", " 1.5", "1.5 ", "0.1(1)", "-.5(1)", "7.(3)", "3(0)", "003", "00.50"]
+             "'a'b'", "\"\"", " 1.5", "1.5 ", "0.1(1)", "-.5(1)", "7.(3)", "3(0)", "003", "00.50", "nan", "inf", "1_000",
+             "0x10", "1.e3", "1.e", ".e3", "+.5", "-.5e1(2)", "1e5(1)", "1E-2", "2.50(10)", "0.0(1)", "10.(1)"]
     out = [{"kind": "pv", "s": s} for s in fixed]
     while len(out) < n:
         r = rng.random()
@@ -400,10 +402,10 @@ def pv_recipes(rng, n):
 def build_recipes(ctx):
     q = ctx.quick
     plan = [  # (family, shape, quick count, thorough count)
-        ("mixed", "single", 500, 12000), ("mixed", "multi-scalars-first", 250, 6000), ("mixed", "multi", 250, 6000),
-        ("numeric", "single", 300, 8000), ("strings", "single", 300, 8000), ("strings", "multi", 100, 3000),
-        ("whole", "single", 100, 2000), ("bigint", "single", 80, 2000), ("multiblank", "single", 60, 1500),
-        ("outside", "single", 160, 3000),
+        ("mixed", "single", 320, 12000), ("mixed", "multi-scalars-first", 160, 6000), ("mixed", "multi", 160, 6000),
+        ("numeric", "single", 200, 8000), ("strings", "single", 200, 8000), ("strings", "multi", 60, 3000),
+        ("whole", "single", 60, 2000), ("bigint", "single", 50, 2000), ("multiblank", "single", 40, 1500),
+        ("outside", "single", 100, 3000),
     ]
     recipes = []
     k = 0
@@ -424,8 +426,25 @@ def build_recipes(ctx):
                         recipes.append({"kind": "repo", "source": "repo-file", "file": rel, "variant": "drop:" + name})
         except Exception:
             pass                       # the "full" recipe records what the library does with this file
-    recipes += pv_recipes(ctx.rng, 400 if q else 6000)
+    recipes += pv_recipes(ctx.rng, 300 if q else 6000)
     return recipes
+
+
+def last_state(stdout):
+    """The final state of TLC's counterexample, with byte sequences shown as text."""
+    import re
+    i = stdout.rfind("\nState ")
+    j = stdout.find("\n\n", i + 1)
+    if i < 0:
+        return "(no counterexample)"
+    txt = stdout[i + 1:j if j > 0 else None]
+
+    def show(m):
+        nums = [int(x) for x in m.group(1).split(",")]
+        if nums and all(32 <= n < 127 for n in nums) and (len(nums) > 1 or nums[0] > 57):
+            return '"%s"' % "".join(map(chr, nums))
+        return m.group(0)
+    return re.sub(r"<<\s*((?:\d+\s*,\s*)*\d+)\s*>>", show, txt)
 
 
 # ------------------------------------------------------------------ the check
@@ -433,21 +452,24 @@ def run(ctx, explain=False):
     # (M) design-level model checking: Parse(Ser(d)) = d, parser actions taken step by step
     if ctx.quick:
         models = [("1 block, <=3 items, <=3 cells, 10 values", mc_cfg(1, 3, 2, 3)),
-                  ("2 blocks, <=3 items, <=3 cells, 3 values, decorated", mc_cfg(2, 3, 2, 3, alpha="2,3,7", pat=2, decor=True))]
+                  ("2 blocks, <=3 items, <=3 cells, values {2.0, 'a b'}, names a_1 b_2 a_3, decorated",
+                   mc_cfg(2, 3, 2, 3, alpha="3,7", pat=2, decor=True))]
     else:
         models = [("1 block, <=3 items, <=4 cells, 10 values", mc_cfg(1, 3, 2, 4)),
-                  ("1 block, <=3 items, <=4 cells, 10 values, names a_1 b_2 a_3, decorated", mc_cfg(1, 3, 2, 4, pat=2, decor=True)),
-                  ("2 blocks, <=3 items, <=3 cells, 10 values", mc_cfg(2, 3, 2, 3)),
-                  ("2 blocks, <=3 items, all shapes (<=12 cells), 2 values", mc_cfg(2, 3, 2, 12, alpha="3,7", pat=2)),
-                  ("2 blocks, <=2 items, <=4 cells, 10 values, decorated", mc_cfg(2, 2, 2, 4, decor=True))]
+                  ("1 block, <=3 items, <=4 cells, 10 values, names a_1 b_2 a_3, decorated",
+                   mc_cfg(1, 3, 2, 4, pat=2, decor=True)),
+                  ("2 blocks, <=3 items, <=3 cells, values {-12, 2.0, 1.50(3), 'a b', 'a  b'}",
+                   mc_cfg(2, 3, 2, 3, alpha="2,3,5,7,10")),
+                  ("2 blocks, <=3 items, <=5 cells, values {2.0, 'a b'}, names a_1 b_2 a_3",
+                   mc_cfg(2, 3, 2, 5, alpha="3,7", pat=2)),
+                  ("2 blocks, <=2 items, <=3 cells, 10 values, decorated", mc_cfg(2, 2, 2, 3, decor=True))]
     for name, cfg in models:
         ctx.model_check(MC, cfg, name="MC_Cif(%s)" % name, timeout=ctx.pick(300, 3000))
     if explain:
         for variant in ["asbuilt-dataline", "asbuilt-typing", "asbuilt-itemtext"]:
             res = tlc.run(MC, mc_cfg(2, 2, 1, 2, variant=variant), timeout=300)
             print("---- deviation %s: violated %s" % (variant, res.violated or "nothing"))
-            i = res.stdout.find("Error: Invariant")
-            print(res.stdout[i:i + 6000] if i >= 0 else "(no counterexample)")
+            print(last_state(res.stdout))
     # (T) executions of the real code
     recipes = build_recipes(ctx)
     traces = pool_map(safe_drive(drive), recipes)
